@@ -19,11 +19,13 @@ import (
 // StrategyManager manages state for load balancing strategies across a single Gate instance.
 // This eliminates global state and allows multiple Gate instances in the same process.
 type StrategyManager struct {
-	// Shared random source for all random operations
-	rng *rand.Rand
+	// Shared random source for all random operations.
+	// *rand.Rand is not safe for concurrent use, rngMu serializes the connections.
+	rngMu sync.Mutex
+	rng   *rand.Rand
 
 	// Round-robin state per route host
-	roundRobinIndexes *sync.Map // map[string]int
+	roundRobinIndexes *sync.Map // map[string]*atomic.Uint64
 
 	// Connection counters for least-connections strategy
 	connectionCounters *sync.Map // map[string]*atomic.Uint32
@@ -168,7 +170,9 @@ func (sm *StrategyManager) randomNextBackend(log logr.Logger, backends []string)
 	}
 
 	// Simple random selection - let tryBackends handle health checking via actual dials
+	sm.rngMu.Lock()
 	randIndex := sm.rng.Intn(len(backends))
+	sm.rngMu.Unlock()
 	backend := backends[randIndex]
 
 	return backend, log, true
@@ -179,12 +183,12 @@ func (sm *StrategyManager) roundRobinNextBackend(log logr.Logger, routeHost stri
 		return "", log, false
 	}
 
-	// Get next backend in round-robin order
-	value, _ := sm.roundRobinIndexes.LoadOrStore(routeHost, 0)
-	index := value.(int)
+	// Get next backend in round-robin order. The index is taken and advanced in one
+	// atomic step so that concurrent connections never share a slot.
+	value, _ := sm.roundRobinIndexes.LoadOrStore(routeHost, new(atomic.Uint64))
+	index := value.(*atomic.Uint64).Add(1) - 1
 
-	backend := backends[index%len(backends)]
-	sm.roundRobinIndexes.Store(routeHost, index+1)
+	backend := backends[index%uint64(len(backends))]
 
 	return backend, log, true
 }
